@@ -51,11 +51,13 @@ RULE = (
 BOUNDS = {
     "quick": "T: NTC=2, STEPIDS={1}, MAXSTEPS=2 (a failed step can be followed by a successful one), extended states <= 400 per shard; "
              "H/bfs: 1 TC, step ids {1,2}, step list <= 3, all probes (32 neighbours x (8 subservices + remove_entry), 25 report variants); "
-             "H/stateless: 1 TC, {add_tc, remove_entry, remove_completed, reports 1..8, report for a never-registered TC} (12 events) depth 5; "
-             "2 TCs, {add_tc, remove_entry} x 2, remove_completed, reports {1,2,4,6} x 2 (13 events) depth 5",
+             "H/stateless: 1 TC, {add_tc, remove_entry, remove_completed, reports 1..8, report for a never-registered TC} (12 events) depth 6; "
+             "2 TCs, {add_tc, remove_entry} x 2, remove_completed, reports {1,2,4,6} x 2 (13 events) depth 5, once with constructed objects "
+             "(last event alternately decoded) and once with every telecommand / report / request ID obtained by unpack()",
     "thorough": "T as quick; H/bfs: 2 TCs step ids {1,2} list<=2; 1 TC step ids {1,2,3} list<=4 with all probes; 3 TCs with reports {1,2,3,5,6,7} list<=1; "
                 "2 TCs step ids {1} list<=1 with probes (64 neighbours x (subservices 1,6 + remove_entry), report variants); "
-                "H/stateless: 1 TC, 14 events (step ids {1,2}) depth 6; 2 TCs, 13 events depth 6",
+                "H/stateless: 1 TC, 12 events depth 7 and 14 events (step ids {1,2}) depth 6; 2 TCs, 13 events depth 6; all-decoded: 2 TCs 13 events depth 5, "
+                "1 TC 14 events depth 5",
 }
 ASSUMPTIONS = [
     "the documented state machine is the table in DESIGN.md section 4/C16 (from the class and TmCheckResult docstrings and the property text)",
@@ -388,21 +390,21 @@ def ev_sig(ev):
 
 
 # ------------------------------------------------------------------ executing one case
-def hist_case(ntc, hist, decoded_last):
-    return {"kind": "hist", "ntc": ntc, "history": [list(e) for e in hist], "decoded_last": bool(decoded_last)}
+def hist_case(ntc, hist, decoded_last, decoded_prefix=False):
+    return {"kind": "hist", "ntc": ntc, "history": [list(e) for e in hist], "decoded_last": bool(decoded_last), "decoded_prefix": bool(decoded_prefix)}
 
 
-def locate_divergence(rec, impl, hist):
-    """the state reached by `hist` (all objects constructed) is not the table's: report the FIRST diverging event with
+def locate_divergence(rec, impl, hist, decoded=False):
+    """the state reached by `hist` (all objects constructed, or all decoded) is not the table's: report the FIRST diverging event with
     the history up to it as the case (so that the replay artefact is minimal and its signature names that event)"""
     ntc = impl.ntc
     v = impl.fresh()
     st = tuple([None] * ntc)
     for i, ev in enumerate(hist):
-        case = hist_case(ntc, hist[: i + 1], False)
+        case = hist_case(ntc, hist[: i + 1], decoded, decoded)
         exp_state, exp_ans = table_step(st, ev, ntc)
         try:
-            ans, _ = impl.apply(v, ev, False)
+            ans, _ = impl.apply(v, ev, decoded)
         except Exception as e:  # noqa: BLE001
             rec.violation(f"C16.exception/hist/{ev_sig(ev)}/{type(e).__name__}", case, repr(e), None)
             return
@@ -417,26 +419,26 @@ def locate_divergence(rec, impl, hist):
         if bad:
             return
         st = exp_state
-    rec.violation("C16.nondeterministic/hist", hist_case(ntc, hist, False), "state differs between two executions of the same history", None)
+    rec.violation("C16.nondeterministic/hist", hist_case(ntc, hist, decoded, decoded), "state differs between two executions of the same history", None)
 
 
-def run_events(rec, impl, prefix, last, decoded_last, view, exp_src, exp_dst, exp_ans, sig, case, state_sig=None):
-    """fresh tracker; prefix (constructed objects) must lead to exp_src - otherwise the first diverging event of the
+def run_events(rec, impl, prefix, last, decoded_last, view, exp_src, exp_dst, exp_ans, sig, case, state_sig=None, decoded_prefix=False):
+    """fresh tracker; prefix (constructed objects, or all decoded) must lead to exp_src - otherwise the first diverging event of the
     prefix is located and reported; then `last`: answer, resulting state, and the results handed out earlier.
     returns the tracker if everything agreed, else None"""
     v = impl.fresh()
     held = []
     try:
         for e in prefix:
-            _, res = impl.apply(v, e, False, False)
+            _, res = impl.apply(v, e, decoded_prefix, False)
             if res is not None:
                 held.append((res, bool(res.completed), res.status))
     except Exception:  # noqa: BLE001 - the shorter history is a case of its own; name its first diverging event
-        locate_divergence(rec, impl, prefix)
+        locate_divergence(rec, impl, prefix, decoded_prefix)
         return None
     if view(v) != exp_src:
         rec.count("prefix_diverged")
-        locate_divergence(rec, impl, prefix)
+        locate_divergence(rec, impl, prefix, decoded_prefix)
         return None
     try:
         ans, _res = impl.apply(v, last, decoded_last)
@@ -460,7 +462,7 @@ def run_events(rec, impl, prefix, last, decoded_last, view, exp_src, exp_dst, ex
     return v if ok else None
 
 
-def check_hist(rec, impl, hist, src_state, decoded_last):
+def check_hist(rec, impl, hist, src_state, decoded_last, decoded_prefix=False):
     """history in the H vocabulary; src_state: table state the prefix hist[:-1] leads to"""
     ntc = impl.ntc
     ev = hist[-1]
@@ -469,7 +471,7 @@ def check_hist(rec, impl, hist, src_state, decoded_last):
     rec.traces += 1
     rec.ops += len(hist)
     return run_events(rec, impl, hist[:-1], ev, decoded_last, impl.view_h, (src_state, 0), (exp_state, 0), exp_ans,
-                      "hist/" + ev_sig(ev), hist_case(ntc, hist, decoded_last))
+                      "hist/" + ev_sig(ev), hist_case(ntc, hist, decoded_last, decoded_prefix), None, decoded_prefix)
 
 
 def _diff_sig(got, exp):
@@ -632,7 +634,8 @@ def stateless_menu(ntc, subs, stepids, unknown):
     return events
 
 
-def stateless(rec, ntc, events, depth, part, parts):
+def stateless(rec, ntc, events, depth, part, parts, all_decoded=False):
+    """all_decoded: every telecommand, report and request ID of the history is an object obtained by unpack()"""
     impl = Impl(ntc)
     init = tuple([None] * ntc)
     n = len(events)
@@ -643,24 +646,24 @@ def stateless(rec, ntc, events, depth, part, parts):
             return
         for i, ev in enumerate(events):
             h = hist + (ev,)
-            check_hist(rec, impl, h, state, decoded_last=bool((idxsum + i + len(h)) & 1))
+            check_hist(rec, impl, h, state, all_decoded or bool((idxsum + i + len(h)) & 1), all_decoded)
             rec_down(h, table_step(state, ev, ntc)[0], idxsum + i)
 
     # shards are the first-two-event prefixes; the histories of length 1 belong to part 0
     if part == 0:
         for i, ev in enumerate(events):
-            check_hist(rec, impl, (ev,), init, decoded_last=bool((i + 1) & 1))
+            check_hist(rec, impl, (ev,), init, all_decoded or bool((i + 1) & 1), all_decoded)
     for p in range(n * n):
         if p % parts != part:
             continue
         i, j = divmod(p, n)
         s1 = table_step(init, events[i], ntc)[0]
         h = (events[i], events[j])
-        check_hist(rec, impl, h, s1, decoded_last=bool((i + j + 2) & 1))
+        check_hist(rec, impl, h, s1, all_decoded or bool((i + j + 2) & 1), all_decoded)
         rec_down(h, table_step(s1, events[j], ntc)[0], i + j)
     rec.count("stateless_histories", rec.traces)
     rec.count("impl_hist_cases", rec.traces)
-    rec.outcome(f"stateless/ntc={ntc}/depth={depth}/events={n}")
+    rec.outcome(f"stateless/ntc={ntc}/depth={depth}/events={n}/all_decoded={all_decoded}")
 
 
 # ------------------------------------------------------------------ engine T: every edge of the TLC graph
@@ -755,14 +758,16 @@ def shards(tier):
         for part in range(n):
             items.append({"kind": "bfs", "ntc": ntc, "stepids": stepids, "maxsteps": maxsteps, "subs": subs_, "part": part, "parts": n, "probes": probes})
 
-    def sl(n, ntc, subs_, stepids, unknown, depth):
+    def sl(n, ntc, subs_, stepids, unknown, depth, all_decoded=False):
         for part in range(n):
-            items.append({"kind": "stateless", "ntc": ntc, "subs": subs_, "stepids": stepids, "unknown": unknown, "depth": depth, "part": part, "parts": n})
+            items.append({"kind": "stateless", "ntc": ntc, "subs": subs_, "stepids": stepids, "unknown": unknown, "depth": depth, "part": part, "parts": n,
+                          "all_decoded": all_decoded})
 
     if q:
         bfs(16, 1, [1, 2], 3, subs, "full")
         sl(32, 1, subs, [1], True, 6)
         sl(16, 2, [1, 2, 4, 6], [1], False, 5)
+        sl(16, 2, [1, 2, 4, 6], [1], False, 5, True)
     else:
         bfs(32, 2, [1, 2], 2, subs, "none")
         bfs(16, 1, [1, 2, 3], 4, subs, "full")
@@ -771,6 +776,8 @@ def shards(tier):
         sl(64, 1, subs, [1], True, 7)
         sl(32, 1, subs, [1, 2], True, 6)
         sl(32, 2, [1, 2, 4, 6], [1], False, 6)
+        sl(16, 2, [1, 2, 4, 6], [1], False, 5, True)
+        sl(16, 1, subs, [1, 2], True, 5, True)
     return items
 
 
@@ -798,7 +805,7 @@ def run_shard(item):
         rec.nontrivial += rec.transitions
     else:
         events = stateless_menu(item["ntc"], item["subs"], item["stepids"], item["unknown"])
-        stateless(rec, item["ntc"], events, item["depth"], item["part"], item["parts"])
+        stateless(rec, item["ntc"], events, item["depth"], item["part"], item["parts"], item.get("all_decoded", False))
         rec.evaluations += rec.transitions
         rec.nontrivial += rec.transitions
     return rec.result()
@@ -812,7 +819,7 @@ def replay(case):
         check_edge(rec, impl, path[:-1], path[-1][0], path[-1][1], case["source_state"], case["expected_state"], case["decoded_last"])
     else:
         hist = tuple(tuple(e) for e in case["history"])
-        check_hist(rec, impl, hist, table_run(hist[:-1], case["ntc"]), case.get("decoded_last", False))
+        check_hist(rec, impl, hist, table_run(hist[:-1], case["ntc"]), case.get("decoded_last", False), case.get("decoded_prefix", False))
     return rec.result()
 
 
